@@ -69,6 +69,11 @@ func main() {
 		dump := fs.Int("dump", 0, "dump level")
 		_ = fs.Parse(os.Args[2:])
 		os.Exit(props.C13Child(*name, *depth, *dump))
+	case "tinypart":
+		if len(os.Args) < 4 {
+			usage()
+		}
+		os.Exit(props.RunTinyPart(os.Args[2], os.Args[3]))
 	case "replay":
 		if len(os.Args) < 3 {
 			usage()
